@@ -10,6 +10,7 @@ from core import Ob, HELD, VIOLATED, INCONCLUSIVE, KNOWN
 from execu import Exec, State, Refuse, CallRec, VOver
 from values import *
 import models
+import panicmodels  # noqa: registers the panic-capable std callees
 import vc
 
 
@@ -134,16 +135,57 @@ def field_path(t):
     return None
 
 
+def file_of(name):
+    """source file of a method (`<impl at FILE:..>`) or the module path of a free function"""
+    m = re.search(r'<impl at ([^:>]+):', name)
+    if m:
+        return m.group(1)
+    parts = name.split('::')
+    return '::'.join(parts[:-1]) if len(parts) > 1 else None
+
+
+def has_back_edge(f):
+    """a jump to a block with a smaller or equal id (loops); conservative"""
+    for b in f.blocks.values():
+        t = b.term
+        if not t:
+            continue
+        targets = [x for x in flatten(t) if isinstance(x, int)]
+        if t[0] in ('goto',) and isinstance(t[1], int) and t[1] <= b.id:
+            return True
+        if t[0] == 'switch' and any(isinstance(x, int) and x <= b.id for x in targets[0:]):
+            # switch targets include values as well as block ids: only treat as a loop if some goto elsewhere closes it
+            pass
+    return False
+
+
+def flatten(t):
+    for x in t:
+        if isinstance(x, (tuple, list)):
+            yield from flatten(x)
+        else:
+            yield x
+
+
 class Auditor:
     def __init__(self, ctx, prog, engine_label='M-audit'):
         self.ctx, self.prog = ctx, prog
         self.label = engine_label
 
-    def paths(self, func, inline=None, args=None, extra_models=None, max_depth=6, state=None, unwind=1, allow_bound=False):
-        """symbolically execute `func`; `inline` = regex of callee names that are inlined (others uninterpreted)"""
+    def paths(self, func, inline=None, args=None, extra_models=None, max_depth=6, state=None, unwind=1, allow_bound=False,
+              same_file=False):
+        """symbolically execute `func`; `inline` = regex of callee names that are inlined (others uninterpreted);
+        same_file: additionally inline loop-free helpers defined in the same source file as `func` (so that moving code
+        into a helper does not hide it)"""
         rx = re.compile(inline) if inline else None
+        home = file_of(func.name)
+
+        def pred(f, d):
+            if rx and rx.search(f.name):
+                return True
+            return bool(same_file and home and file_of(f.name) == home and f.name != func.name and len(f.blocks) <= 60 and not has_back_edge(f))
         ex = Exec(self.prog, models=(extra_models or []) + models.MODELLED,
-                  inline=(lambda f, d: bool(rx and rx.search(f.name))), max_depth=max_depth, unwind=unwind)
+                  inline=pred, max_depth=max_depth, unwind=unwind)
         st = state or State()
         outs = ex.run(func, args if args is not None else sym_args(func), st)
         self.last_ex = ex
